@@ -14,6 +14,7 @@ import (
 	"fmt"
 	"math"
 	"strings"
+	"sync/atomic"
 
 	"github.com/twpayne/go-geom"
 	"github.com/twpayne/go-geom/bigxy"
@@ -536,6 +537,9 @@ var (
 	sharedWKBOptions     = []wkbcommon.WKBOption{wkbcommon.WKBOptionEmptyPointHandling(wkbcommon.EmptyPointHandlingNaN)}
 )
 
+// accessorSeq numbers the rings pushed into polygons handed out by MultiPolygon.Polygon.
+var accessorSeq atomic.Int64
+
 func Registry() []Fn {
 	nanOpt := wkbcommon.WKBOptionEmptyPointHandling(wkbcommon.EmptyPointHandlingNaN)
 	r := []Fn{
@@ -543,6 +547,25 @@ func Registry() []Fn {
 		{"T.Bounds", hasGeom, func(in *Input) string { return in.fp(in.T.Bounds()) }},
 		{"T.Coords+accessors", flatGeom, func(in *Input) string {
 			out := in.fp(in.T, in.T.Layout(), in.T.Stride(), in.T.SRID(), in.T.Empty())
+			switch t := in.T.(type) {
+			case *geom.MultiPolygon:
+				// what the accessor hands out belongs to the caller: a ring pushed into the polygon it
+				// returned for a member without rings must not show in what it returns next
+				// (a different ring on every call, so that a polygon shared behind the accessor makes
+				// this call's result depend on the calls before it)
+				for i, ends := range t.Endss() {
+					if len(ends) == 0 && t.Stride() > 0 {
+						q := t.Polygon(i)
+						v := float64(accessorSeq.Add(1))
+						ring := make([]float64, 4*t.Stride())
+						for k := range ring {
+							ring[k] = v
+						}
+						_ = q.Push(geom.NewLinearRingFlat(t.Layout(), ring))
+						q.SetSRID(int(v))
+					}
+				}
+			}
 			switch t := in.T.(type) {
 			case *geom.Polygon:
 				for i := 0; i < t.NumLinearRings(); i++ {
